@@ -122,7 +122,7 @@ def classify(ctc, naming):
             'pure': before == after, 'errors': errors}
 
 
-def query(model, naming):
+def query(model, naming, gone=()):
     """Return values of all public query methods (C03)."""
     pj = Projector(naming)
     post, fobjs, robjs = pj.model(model)
@@ -143,6 +143,10 @@ def query(model, naming):
                        'same': got is listed.get(f.name) and got is not None})
     missing = _call(errors, 'get_feature_by_name', lambda: model.get_feature_by_name('\x00no such'), None)
     ret['lookup'] = lookup
+    # names that were features of this model object earlier in the history and are not any more
+    ret['lookup_gone'] = [{'n': g, 'found': _fname(naming, _call(errors, 'get_feature_by_name',
+                                                                   lambda g=g: model.get_feature_by_name(naming.conc(g)), None))}
+                          for g in gone]
     ret['lookup_missing'] = _fname(naming, missing)
     fl = []
     for f in fobjs:
